@@ -283,7 +283,7 @@ func (w *World) EnvState(id string) (string, error) {
 // Envs lists environment ids and states.
 func (w *World) Envs() map[string]string {
 	out := map[string]string{}
-	rep, err := w.Core.Rpc.GetEnvironments(context.Background(), &pb.GetEnvironmentsRequest{})
+	rep, err := w.Core.Rpc.GetEnvironments(context.Background(), &pb.GetEnvironmentsRequest{ShowAll: true})
 	if err == nil && rep != nil {
 		for _, e := range rep.Environments {
 			out[e.Id] = e.State
@@ -325,4 +325,17 @@ func InterComponent(kind vrt.OpKind, site string) bool {
 		return false
 	}
 	return true
+}
+
+// BreakFixture writes the deliberately broken fixture files used by creation-failure scenarios.
+func BreakFixture() {
+	d := Dir()
+	os.WriteFile(filepath.Join(d, "repo", "workflows", "c06-badyaml.yaml"), []byte("name: c06-badyaml\nroles:\n  - name: [unclosed\n    task: {load: x\n"), 0o644)
+	os.Remove(filepath.Join(d, "repo", "tasks", "c06noclass.yaml"))
+	// workflow c06-noclass refers to a class whose file is missing
+	if b, err := os.ReadFile(filepath.Join(d, "repo", "workflows", "c06-noclass.yaml")); err == nil {
+		os.WriteFile(filepath.Join(d, "repo", "workflows", "c06-noclass.yaml"), []byte(strings.ReplaceAll(string(b), "load: c06a", "load: c06missing")), 0o644)
+	}
+	// class file whose name field does not match its file name
+	os.WriteFile(filepath.Join(d, "repo", "tasks", "c06m.yaml"), []byte("name: someothername\ncontrol:\n  mode: direct\nwants:\n  cpu: 0.1\n  memory: 16\ncommand:\n  shell: true\n  value: \"/bin/true\"\n  user: root\n"), 0o644)
 }
